@@ -3,7 +3,7 @@
    rotation kernel is an oracle whose optimality is C06; contacts are Model_contact (C05/C14),
    the superposition step is Model_superpose (C13)).  Spec: Spec_rmsd. *)
 From Verif Require Import PyLib ModelTypes Generated_parse Generated_rmsd Model_contact Model_superpose Spec_superpose
-  Model_rmsd Spec_rmsd Proofs_superpose Proofs_rmsd Proofs_contact_c05 Proofs_izone Proofs_rigid_rmsd Proofs_superpose_opt Proofs_rmsd_opt.
+  Model_rmsd Spec_rmsd Proofs_superpose Proofs_rmsd Proofs_contact_c05 Proofs_izone Proofs_rigid_rmsd Proofs_superpose_opt Proofs_rmsd_opt Model_zone Proofs_rmsd_def Proofs_rmsd_def2.
 Open Scope Q_scope.
 
 (* the three fixed-column readers of the fast routes read today's wwPDB columns (regenerated) *)
@@ -21,6 +21,34 @@ Theorem C07_sql_pairs_by_identity : forall rows decoy,
   = flat_map (fun r => match find (same_atom r) decoy with Some d => [(pos_of d, pos_of r)] | None => [] end) rows.
 Proof. exact sql_route_pairs_by_identity. Qed.
 Print Assumptions C07_sql_pairs_by_identity.
+
+(* ... so THE SQL i-RMSD IS ITS DEFINITION: for any decoy — records in any order, atoms or residues missing — with the
+   reference's two chains and residue names consistent with it, the routine given zone z fits and measures on exactly the
+   specification's pairs (backbone atoms of the zone residues of the reference, each with the decoy atom of the same
+   chain, residue number and atom name; atoms without a partner left out) *)
+Theorem C07_irmsd_sql_is_definition : forall rmat z decoy ref,
+  get_chains decoy = get_chains ref ->
+  Forall (names_consistent decoy) (izone_rows_from_zone z ref) ->
+  irmsd_sql rmat (izone_rows_from_zone z ref) decoy ref
+  = (let pairs := irmsd_pairs_spec z decoy ref in
+     match pairs with
+     | [] => Err "ValueError"
+     | _ => msd (map (mv rmat) (centred (map fst pairs))) (centred (map snd pairs))
+     end).
+Proof. exact irmsd_sql_is_definition. Qed.
+Print Assumptions C07_irmsd_sql_is_definition.
+
+(* ... and THE FAST i-RMSD IS ITS DEFINITION under the condition it is written for: identities unique in the decoy and the
+   common zone atoms in the same relative order in both files (atoms or residues may be missing on either side); without
+   that condition the fast route mis-pairs: C07_fast_pairs_by_identity_refuted, known finding F6 *)
+Theorem C07_irmsd_fast_is_definition : forall z decoy ref rmat check enforce b,
+  NoDup (map key3_of decoy) -> same_relative_order z decoy ref ->
+  (check || enforce)%bool = true -> check_residues enforce None decoy ref = Ok b ->
+  irmsd_fast rmat z check enforce decoy ref
+  = (let pairs := irmsd_pairs_spec z decoy ref in
+     msd (superpose_selection rmat (map fst pairs) (map snd pairs) (map fst pairs)) (map snd pairs)).
+Proof. exact irmsd_fast_is_definition'. Qed.
+Print Assumptions C07_irmsd_fast_is_definition.
 
 (* atoms missing from the decoy are left out: the specification's pairs are exactly the reference
    atoms of the selection that have a decoy atom of the same identity *)
